@@ -4,6 +4,8 @@ From PV Require Import Model.Condensed.
 Inductive case :=
 | KCond (n i j : Z) (obs : option Z) (obs_sym : option Z)
 | KCondArr (n : Z) (ijs : list (Z * Z)) (obs : list Z)
+(* index sequences of any container type; None = ValueError, required as soon as one pair has i = j *)
+| KCondSeq (n : Z) (ijs : list (Z * Z)) (obs : option (list Z))
 | KSq (n : Z) (ks : list Z) (obs : list (Z * Z)) (obs_scalar : list (Z * Z))
 | KPdist (m : metric) (xs : list Z) (obs : list Z) (obs_cd : list (list Z))
 | KCdist (m : metric) (xs ys : list Z) (obs : list (list Z))
@@ -31,6 +33,13 @@ Definition check (c : case) : nat :=
                                  && ozeqb obs obs_sym
     | KCondArr n ijs obs =>
         list_eqb ozeqb (map Some obs) (map (fun p => to_condensed n (fst p) (snd p)) ijs)
+    | KCondSeq n ijs obs =>
+        if existsb (fun p => fst p =? snd p) ijs
+        then match obs with None => true | Some _ => false end
+        else match obs with
+             | Some o => list_eqb ozeqb (map Some o) (map (fun p => to_condensed n (fst p) (snd p)) ijs)
+             | None => false
+             end
     | KSq n ks obs obs_scalar =>
         list_eqb zz_eqb obs (map (to_squared n) ks) && list_eqb zz_eqb obs_scalar (map (to_squared n) ks)
         && forallb (fun kp => ozeqb (to_condensed n (fst (snd kp)) (snd (snd kp))) (Some (fst kp)))
